@@ -16,4 +16,14 @@ TABLE = {
    text="Single faults at every callback invocation position (validators, guards, before, exit, on, enter, after; machine, model, listener; first, nested and queued transitions) of every base scenario, plus double faults (second fault at every position of the follow-up) on the rule-free and guarded families, on sync rtc/non-rtc and async engines; exception identity at the outermost caller, stored state, dropped queue, lock/queue cleanliness and normal processing of three follow-up events are checked against the reference.",
    note="Trusted: mc/ref.py. Fault classes rotate over Exception/RuntimeError/LookupError/AttributeError/TypeError subclasses; BaseException is outside the statement. Siblings of the failing callback inside the same group may or may not run.",
    ref="DESIGN.md section 3 C04"),
+ "C02": dict(
+   technique="exhaustive enumeration of callback-slot populations (84 slots: group x attachment way x provider) x 8 transition kinds x 5 engine/coroutine masks on generated classes of the real library, group-wise comparison with a reference group sequence",
+   text="All populations of <=2 slots (thorough <=3 and all-but-one) plus the full population are rendered into real classes (naming convention, generic names, inline names, inline callables, decorators; machine, model, listener; same name in several groups) and executed for external/self/internal transitions fired by either event of a multi-event transition, a second candidate behind a rejected one, and initial activation, on sync rtc/non-rtc and async (all coroutines / first only / plain functions returning awaitables). Strict order between groups, exactly-once inside, injected event/source/target/state, current state value and is_active seen from inside are compared with the reference; the transition is fired twice.",
+   note="Trusted: applicability rules and group sequence in mc/ref.py. Order inside a group is unconstrained as documented. Guard names provided by several objects stay plain functions here (see known findings C05/C12).",
+   ref="DESIGN.md section 3 C02"),
+ "C14": dict(
+   technique="exhaustive enumeration of before/on slot populations x typed return-value assignments x transition kinds x engines x calling styles on the real library, compared with the unwrap rule",
+   text="Every population of <=2 (thorough <=3) of 26 before/on slots, every assignment of 8 typed return values (None, 0, '', [], [1,2], (1,), {}, 'x'), for external/self/internal transitions fired by either event, and for events that fire nothing, via send() and the event method, sync/async: the result must be None / the single value / the list of before-then-on results; guards, validators, exit, enter, after sentinels and nested events' results never appear.",
+   note="Trusted: unwrap rule as stated in the property; before results first, multiset equality inside each group.",
+   ref="DESIGN.md section 3 C14"),
 }
